@@ -246,6 +246,10 @@ def bench_loop(chk, prop, cfg, tier, rng, wd, finish=False):
         clones_part(chk, thorough, wd)
         import check_taskset
         check_taskset.taskset_part(chk, thorough, wd)
+        # the same property under concurrency: CachedRwLock.tla at lock / epoch granularity, structure extracted from
+        # the source, real threads on clones of one Output validated against CachedRwLock_Trace.tla
+        import crwdefs
+        crwdefs.crw_part(chk, rng, thorough, wd)
         # beyond the property's anchors: the one-shot slot that carries the replies of driver-side queries
         # (process_query, QuerySource actions) on the release/acquire memory model
         import slotdefs
